@@ -17,4 +17,4 @@ Extract Constant Z.div => "(fun (a:int) (b:int) -> if b = 0 then 0 else let q = 
 Extract Constant Z.modulo => "(fun (a:int) (b:int) -> if b = 0 then a else let r = a mod b in if r <> 0 && ((r < 0) <> (b < 0)) then r + b else r)".
 Extract Constant Z.even => "(fun (a:int) -> a land 1 = 0)".
 Extraction "dtm_model.ml" check_pos check_prefix check_table tlabel_of_answer score_of_label label_of_score
-  legalb wfb moves in_check digits_of pos_of expected lab pstep prun pinit.
+  legalb wfb moves in_check digits_of pos_of expected lab pstep prun pinit Nat.eqb.
